@@ -21,7 +21,7 @@ var commonAssume = []string{
 }
 
 var Metas = map[string]Meta{
-	"C01": {Category: "exploration", Rule: "one run = one Writer history (constructor, level, window, dict, data spec, Write/Flush partition, Close) into an accepting simulated sink; non-trivial = constructor accepted and at least one byte written; distinct = distinct schedule signature (sequence of op kinds, sink-call size buckets and outcomes)"},
+	"C01": {Category: "exploration", Rule: "every 200th run index is a length sweep (same setting and data for 400 (thorough 1200) consecutive input lengths); otherwise one run = one Writer history (constructor, level, window, dict, data spec, Write/Flush partition, Close) into an accepting simulated sink; non-trivial = constructor accepted and at least one byte written; distinct = distinct schedule signature (sequence of op kinds, sink-call size buckets and outcomes)"},
 	"C09": {Category: "exploration", Rule: "one run = two Writers fed the same data and Flush positions with different Write partitions; non-trivial = the two partitions differ and data is non-empty; distinct = distinct schedule signature of the first history"},
 	"C10": {Category: "exploration", Rule: "one run = one Writer history with the prefix invariant evaluated at every acknowledged Flush; non-trivial = at least one Flush returned nil; distinct = distinct schedule signature"},
 	"C12": {Category: "exploration", Rule: "one run = history h1 (possibly abandoned, failed, closed), Reset, history h2, compared with a fresh Writer running h2; non-trivial = h1 wrote at least one byte; distinct = distinct schedule signature"},
